@@ -41,6 +41,8 @@ pub struct Shared {
     pub delivered: Vec<u8>,
     pub calls: Vec<InnerCall>,
     pub flushes: usize,
+    /// the writer brings its own `write_all` that does not retry on Interrupted but hands it to its caller
+    pub raw_write_all: bool,
 }
 
 /// Inner writer whose n-th `write` follows a script; once the script is exhausted it accepts everything.
@@ -67,6 +69,39 @@ impl Write for Scripted {
         self.0.borrow_mut().flushes += 1;
         Ok(())
     }
+    fn write_all(&mut self, mut buf: &[u8]) -> io::Result<()> {
+        let raw = self.0.borrow().raw_write_all;
+        while !buf.is_empty() {
+            match self.write(buf) {
+                Ok(0) => return Err(io::Error::new(ErrorKind::WriteZero, "failed to write whole buffer")),
+                Ok(n) => buf = &buf[n..],
+                Err(ref e) if !raw && e.kind() == ErrorKind::Interrupted => {}
+                Err(e) => return Err(e),
+            }
+        }
+        Ok(())
+    }
+}
+
+/// formatted writes whose format string has no run-time arguments (`Arguments::as_str()` is `Some`)
+pub const LITERALS: [&str; 6] = [
+    "warning: unused variable\n",
+    "\x1b[1;33mwarning\x1b[0m: unused \x1b[4mvariable\x1b[0m\n",
+    "\x1b[32mok\x1b[m",
+    "a\x1b]0;t\x07b\u{e9}c\x1b[",
+    "x",
+    "\x1b[31m\u{6f22}\u{5b57}\x1b[0m \u{1f600} done\r\n",
+];
+
+fn write_literal(w: &mut dyn Write, idx: usize) -> io::Result<()> {
+    match idx {
+        0 => write!(w, "warning: unused variable\n"),
+        1 => write!(w, "\x1b[1;33mwarning\x1b[0m: unused \x1b[4mvariable\x1b[0m\n"),
+        2 => write!(w, "\x1b[32mok\x1b[m"),
+        3 => write!(w, "a\x1b]0;t\x07b\u{e9}c\x1b["),
+        4 => write!(w, "x"),
+        _ => write!(w, "\x1b[31m\u{6f22}\u{5b57}\x1b[0m \u{1f600} done\r\n"),
+    }
 }
 
 #[derive(Clone, Copy, Debug, PartialEq, Eq)]
@@ -75,8 +110,11 @@ pub enum Api {
     WriteAll,
     WriteVectored,
     WriteFmt,
+    /// `write!(stream, "<literal>")`: the input must be LITERALS[k]
+    WriteFmtLiteral,
 }
 pub const APIS: [Api; 4] = [Api::Write, Api::WriteAll, Api::WriteVectored, Api::WriteFmt];
+pub const ALL_APIS: [Api; 5] = [Api::Write, Api::WriteAll, Api::WriteVectored, Api::WriteFmt, Api::WriteFmtLiteral];
 
 #[derive(Clone, Copy, Debug, PartialEq, Eq)]
 pub enum Wrap {
@@ -113,6 +151,8 @@ pub struct Run<'a> {
     /// how the caller splits the input over calls (cut positions), in addition to what the protocol does
     pub cuts: &'a [usize],
     pub probe: &'a [u8],
+    /// inner writer with its own write_all that surfaces Interrupted
+    pub raw_write_all: bool,
 }
 
 fn kind_of(step: Step) -> Option<ErrorKind> {
@@ -126,7 +166,7 @@ fn kind_of(step: Step) -> Option<ErrorKind> {
 
 /// Execute one history and check it call by call.  Err((sig, msg)) on the first broken rule.
 pub fn run_history(run: &Run<'_>, st: Option<&mut Stats>) -> Result<(), (String, String)> {
-    let shared = Rc::new(RefCell::new(Shared { script: run.script.to_vec(), ..Default::default() }));
+    let shared = Rc::new(RefCell::new(Shared { script: run.script.to_vec(), raw_write_all: run.raw_write_all, ..Default::default() }));
     let boxed: Box<dyn Write> = Box::new(Scripted(shared.clone()));
     let mut stream = match run.wrap {
         Wrap::Strip => Stream::Strip(anstream::StripStream::new(boxed)),
@@ -222,12 +262,17 @@ pub fn run_history(run: &Run<'_>, st: Option<&mut Stats>) -> Result<(), (String,
                     }
                 }
             }
-            Api::WriteAll | Api::WriteFmt => {
+            Api::WriteAll | Api::WriteFmt | Api::WriteFmtLiteral => {
                 let before_len = shared.borrow().delivered.len();
                 let before_calls = shared.borrow().calls.len();
                 let slot_before = refs.slot();
                 let r = if run.api == Api::WriteAll {
                     stream.w().write_all(chunk)
+                } else if run.api == Api::WriteFmtLiteral {
+                    match LITERALS.iter().position(|l| l.as_bytes() == chunk) {
+                        Some(k) => write_literal(stream.w(), k),
+                        None => return Err(("c06:harness".into(), "literal API used with a non-literal input".into())),
+                    }
                 } else {
                     match std::str::from_utf8(chunk) {
                         Ok(s) => {
@@ -247,9 +292,11 @@ pub fn run_history(run: &Run<'_>, st: Option<&mut Stats>) -> Result<(), (String,
                 let sh = shared.borrow();
                 let during = sh.delivered[before_len..].to_vec();
                 let calls = &sh.calls[before_calls..];
+                let raw = run.raw_write_all;
                 let fatal: Option<ErrorKind> = calls.iter().find_map(|c| match c.step {
                     Step::WouldBlock => Some(ErrorKind::WouldBlock),
                     Step::Other => Some(ErrorKind::Other),
+                    Step::Interrupted if raw => Some(ErrorKind::Interrupted),
                     Step::Accept(0) if !c.offered.is_empty() => Some(ErrorKind::WriteZero),
                     _ => None,
                 });
@@ -391,8 +438,8 @@ pub const PROBES: [&[u8]; 10] = crate::c03::PROBES_BYTES;
 
 fn case_of(run: &Run<'_>) -> Case {
     let mut c = Case::new("c06").b(run.input).b(run.probe);
-    c = c.n(APIS.iter().position(|a| *a == run.api).unwrap() as i64);
-    c = c.n(if run.wrap == Wrap::Strip { 0 } else { 1 });
+    c = c.n(ALL_APIS.iter().position(|a| *a == run.api).unwrap() as i64);
+    c = c.n(if run.wrap == Wrap::Strip { 0 } else { 1 } + if run.raw_write_all { 2 } else { 0 });
     c = c.n(run.script.len() as i64);
     for s in run.script {
         c = c.n(s.code());
@@ -448,25 +495,104 @@ pub fn run(cfg: &Cfg) -> Stats {
                         continue;
                     }
                     let probe = PROBES[((idx as usize) + ai) % PROBES.len()];
-                    let run = Run { input, script: &script, api: *api, wrap, cuts: &[], probe };
+                    let run = Run { input, script: &script, api: *api, wrap, cuts: &[], probe, raw_write_all: false };
                     eval(&run, &mut st, true);
+                    // an inner writer whose own write_all hands Interrupted to its caller (only differs when the script
+                    // interrupts and the API goes through the inner write_all)
+                    if wrap == Wrap::Strip && (*api == Api::WriteAll || *api == Api::WriteFmt) && script.contains(&Step::Interrupted) {
+                        let run = Run { input, script: &script, api: *api, wrap, cuts: &[], probe, raw_write_all: true };
+                        eval(&run, &mut st, true);
+                    }
                     // the same history with the caller handing the input over in two calls, the cut position rotating
                     // with the script index so that calls start in every parser state (mid-sequence, mid-character)
                     if input.len() >= 2 && wrap == Wrap::Strip && *api != Api::WriteFmt {
                         let cut = 1 + ((idx / ninputs as u64) as usize + ai) % (input.len() - 1);
                         let cuts = [cut];
-                        let run = Run { input, script: &script, api: *api, wrap, cuts: &cuts, probe };
+                        let run = Run { input, script: &script, api: *api, wrap, cuts: &cuts, probe, raw_write_all: false };
                         eval(&run, &mut st, true);
                     }
                 }
             }
             idx += n;
         }
+        // formatted writes without run-time arguments: every literal x every script
+        let total_l = nscripts * LITERALS.len() as u64;
+        let mut idx = shard;
+        while idx < total_l {
+            let lit = LITERALS[(idx % LITERALS.len() as u64) as usize].as_bytes();
+            gen::enum_decode(idx / LITERALS.len() as u64, STEPS.len() as u64, &mut digits);
+            let script: Vec<Step> = digits.iter().map(|d| STEPS[*d]).collect();
+            for wrap in [Wrap::Strip, Wrap::AutoNever] {
+                for raw in [false, true] {
+                    if raw && !script.contains(&Step::Interrupted) {
+                        continue;
+                    }
+                    let run = Run { input: lit, script: &script, api: Api::WriteFmtLiteral, wrap, cuts: &[], probe: PROBES[idx as usize % PROBES.len()], raw_write_all: raw };
+                    eval(&run, &mut st, true);
+                }
+            }
+            idx += n;
+        }
+        // very long single buffers (window / buffer sizes inside the stream): sizes around 8 KiB and 16 KiB, few faults
+        let big_sizes: [usize; 9] = [4097, 8191, 8192, 8193, 10000, 16384, 16385, 20000, 65537];
+        let big_scripts: [&[Step]; 8] = [
+            &[Step::All, Step::Interrupted],
+            &[Step::All, Step::Other],
+            &[Step::All, Step::WouldBlock],
+            &[Step::All, Step::Accept(1)],
+            &[Step::All, Step::All, Step::Interrupted],
+            &[Step::Accept(3), Step::All, Step::Interrupted, Step::Accept(2)],
+            &[Step::Interrupted],
+            &[Step::All, Step::Accept(0)],
+        ];
+        let mut kk = 0u64;
+        for size in big_sizes {
+            for shape in 0..3 {
+                for (si, sc) in big_scripts.iter().enumerate() {
+                    kk += 1;
+                    if kk % n != shard || (cfg.tier == Tier::Tiny) {
+                        continue;
+                    }
+                    let mut input: Vec<u8> = vec![];
+                    match shape {
+                        0 => input.resize(size, b'x'),
+                        1 => {
+                            // styled log: short coloured words separated by escapes
+                            while input.len() < size {
+                                input.extend_from_slice(b"\x1b[1;31merror\x1b[0m: something went wrong here\n");
+                            }
+                            input.truncate(size);
+                        }
+                        _ => {
+                            // a printable run boundary exactly at the 8 KiB marks
+                            while input.len() < size {
+                                let room = 8192 - (input.len() % 8192);
+                                if room > 8 {
+                                    input.resize(input.len() + room - 4, b'y');
+                                    input.extend_from_slice(b"\x1b[mz");
+                                } else {
+                                    input.resize(input.len() + room, b'w');
+                                }
+                            }
+                        }
+                    }
+                    for api in APIS {
+                        let run = Run { input: &input, script: sc, api, wrap: Wrap::Strip, cuts: &[], probe: PROBES[si % PROBES.len()], raw_write_all: si % 2 == 1 };
+                        eval(&run, &mut st, true);
+                    }
+                    st.count("very_long_single_buffer_histories");
+                }
+            }
+        }
         // long inputs x random scripts x random caller-side chunking
         let mut i = shard;
         while i < nlong {
             let mut rng = Rng::new(cfg.seed, 0xC06_0000_0000 + i);
-            let input = if i % 2 == 0 { gen::gen_stream(&mut rng, maxlen, true) } else { gen::gen_sgr_text(&mut rng, gen::SgrOpts::default(), 30, &[]) };
+            let input = match i % 8 {
+                7 => gen::gen_long_stream(&mut rng, 16384, true),
+                0 | 2 | 4 | 6 => gen::gen_stream(&mut rng, maxlen, true),
+                _ => gen::gen_sgr_text(&mut rng, gen::SgrOpts::default(), 30, &[]),
+            };
             let slen = rng.range(1, 40) as usize;
             let script: Vec<Step> = (0..slen)
                 .map(|_| match rng.below(12) {
@@ -488,7 +614,7 @@ pub fn run(cfg: &Cfg) -> Stats {
                 _ => cuts,
             };
             let probe = PROBES[rng.below(PROBES.len() as u64) as usize];
-            let run = Run { input: &input, script: &script, api, wrap, cuts: &cuts, probe };
+            let run = Run { input: &input, script: &script, api, wrap, cuts: &cuts, probe, raw_write_all: rng.chance(1, 3) };
             if i < 3 {
                 st.sample(6, || {
                     let mut o = J::obj();
@@ -522,12 +648,14 @@ pub fn replay(case: &Case) -> Result<String, Viol> {
     let input = case.bytes.first().cloned().unwrap_or_default();
     let probe = case.bytes.get(1).cloned().unwrap_or_else(|| b"X".to_vec());
     let nums = &case.nums;
-    let api = APIS[nums.first().copied().unwrap_or(0) as usize % 4];
-    let wrap = if nums.get(1).copied().unwrap_or(0) == 0 { Wrap::Strip } else { Wrap::AutoNever };
+    let api = ALL_APIS[nums.first().copied().unwrap_or(0) as usize % 5];
+    let wflag = nums.get(1).copied().unwrap_or(0);
+    let wrap = if wflag & 1 == 0 { Wrap::Strip } else { Wrap::AutoNever };
+    let raw_write_all = wflag & 2 != 0;
     let sl = nums.get(2).copied().unwrap_or(0) as usize;
     let script: Vec<Step> = nums.iter().skip(3).take(sl).map(|c| STEPS[*c as usize % 8]).collect();
     let cuts: Vec<usize> = nums.iter().skip(3 + sl).map(|c| *c as usize).collect();
-    let run = Run { input: &input, script: &script, api, wrap, cuts: &cuts, probe: &probe };
+    let run = Run { input: &input, script: &script, api, wrap, cuts: &cuts, probe: &probe, raw_write_all };
     match crate::guarded(|| run_history(&run, None)) {
         Ok(Ok(())) => Ok("history satisfies the Write contract".into()),
         Ok(Err((sig, msg))) => Err(Viol { case: case.clone(), msg, sig }),
